@@ -198,6 +198,14 @@ func init() {
 		}
 		return ConstBV(64, uint64(t.Big.BitLen()))
 	})
+	reg("(*math/big.Int).Bit", func(in *Interp, fr *frame, fn *ssa.Function, args []Value) Value {
+		t := in.bigGet(args[0])
+		i := in.concreteInt(args[1].(*Term), "Bit index")
+		if !t.IsConst() {
+			in.unsupported("Bit of symbolic big.Int")
+		}
+		return ConstBV(64, uint64(t.Big.Bit(int(i))))
+	})
 	reg("(*math/big.Int).Exp", func(in *Interp, fr *frame, fn *ssa.Function, args []Value) Value {
 		x, y := in.bigGet(args[1]), in.bigGet(args[2])
 		if !x.IsConst() || !y.IsConst() || !isNilPtr(args[3]) {
